@@ -384,7 +384,7 @@ def main():
     rng = random.Random(run.seed)
     ctx = Ctx(run)
     ctx.seen_n = set()
-    vol = dict(win_samples=run.pick(70, 160), slice_exh=run.pick(8, 12), slice_samples=run.pick(250, 1200))
+    vol = dict(win_samples=run.pick(70, 160), slice_exh=run.pick(9, 12), slice_samples=run.pick(250, 1200))
     # fixed witnesses first (section 9 D3, and the zero-length final chunk)
     d3 = dict(channels={"a": "i32", "b": "i32"}, strw=3, segments=[
         dict(kind="new", be=False, objs=[["a", 4]], interleaved=False, nchunks=1),
@@ -396,7 +396,7 @@ def main():
         dict(kind="new", be=False, objs=[["b", 4], ["a", 4]], interleaved=False, nchunks=3)])
     for spec in (d3, d3s, d13):
         run_file(ctx, spec, rng, "witness_files", vol)
-    nfiles = run.pick(36, 1500)
+    nfiles = run.pick(100, 1500)
     for it in range(nfiles):
         spec = G.gen_spec(rng, big=False, small=(it % 3 != 2))
         run_file(ctx, spec, rng, "generated_files", vol)
